@@ -58,14 +58,19 @@ def _kcoord(case, xs):
     """coordinate k (first non-zero component of the direction) of the points, and nrm"""
     d, nd = case["dir"], case["dirnorm"]
     k = [i for i in range(3) if d[i] != 0][0]
-    co = [F(case["org"][k]) + F(x) * d[k] for x in xs]
+    co = [_scale(case) * (F(case["org"][k]) + F(x) * d[k]) for x in xs]
     return co, F(nd, abs(d[k]))
+
+
+def _scale(case):
+    """dyadic scale factor of the whole geometry (exact in binary64 and in Q)"""
+    return F(2) ** int(case.get("scale_exp", 0))
 
 
 def _points3(case, xs):
     d = np.array(case["dir"], dtype=float).reshape((3, 1))
     o = np.array(case["org"], dtype=float).reshape((3, 1))
-    return o + d * np.array(xs, dtype=float).reshape((1, -1))
+    return float(_scale(case)) * (o + d * np.array(xs, dtype=float).reshape((1, -1)))
 
 
 def _grid1d(p3, cells, flip):
@@ -148,7 +153,11 @@ class C33(Prop):
         "collinear points (the non-parallel branches of segments_3d) are not modelled.  Zero-length "
         "cells present in both tessellations at one point make the code raise IndexError; such "
         "inputs are treated as outside the property (not a tessellation) by the oracle, and the "
-        "model/theorem C33_1d_error_iff state exactly when it happens.  Defect found and repaired "
+        "model/theorem C33_1d_error_iff state exactly when it happens.  Scale: the generated "
+        "geometry is also scaled by dyadic factors 2^-20..2^-10 and 2^10..2^20 in 2-D, and 2^-14.."
+        "2^-10, 2^10..2^20 in 1-D (segments_3d uses absolute tolerances of 1e-8, so cells much "
+        "shorter than 1e-6 are outside the modelled/exact range); all sums are compared relative "
+        "to the cell measures.  Defect found and repaired "
         "(fix commit 2a8c98028): in floating precision GEOS dropped the overlap of nested triangles "
         "with a vertex on the other's edge up to rounding; triangulations now intersects on a "
         "precision grid.  surface_tessellations (same shapely call pattern) is not exercised.")
@@ -332,6 +341,27 @@ class C33(Prop):
                 "org": [rng.randint(-4, 4) / 2 for _ in range(3)], "tol": 2.0 ** -12}
 
     def generate(self, rng, n, tier):
+        for case in self._generate(rng, n, tier):
+            # directed stream: the same geometry scaled by a dyadic factor (the property is
+            # scale invariant; absolute tolerances in the code are not)
+            r = rng.random()
+            if case["kind"] == "m2":
+                if r < 0.3:
+                    case["scale_exp"] = -rng.randint(10, 20)
+                elif r < 0.4:
+                    case["scale_exp"] = rng.randint(10, 20)
+            else:
+                # segments_3d has absolute tolerances of 1e-8: cells of 2^-6 are scaled down to
+                # 2^-20 (1e-6) at most, see level_note
+                if r < 0.08:
+                    case["scale_exp"] = -rng.randint(10, 14)
+                elif r < 0.12:
+                    case["scale_exp"] = rng.randint(10, 20)
+            if case["kind"] == "m1" and "scale_exp" in case:
+                case["tol"] = case["tol"] * 2.0 ** case["scale_exp"]
+            yield case
+
+    def _generate(self, rng, n, tier):
         n2 = min(max(n // 8, 1), 360)
         for k in range(n - n2):
             yield self._line_case(rng, tier, "lt" if k % 2 == 0 else "m1")
@@ -347,8 +377,8 @@ class C33(Prop):
         ex, ey, nr = ROTS[case["rot"]]
         p2 = g.nodes[:2].copy()
         ex, ey = np.array(ex, dtype=float) / nr, np.array(ey, dtype=float) / nr
-        g.nodes = (np.array(case["org"], dtype=float).reshape((3, 1))
-                   + np.outer(ex, p2[0]) + np.outer(ey, p2[1]))
+        g.nodes = float(_scale(case)) * (np.array(case["org"], dtype=float).reshape((3, 1))
+                                         + np.outer(ex, p2[0]) + np.outer(ey, p2[1]))
         g.compute_geometry()
         cn = g.cell_nodes().tocsc()
         tris = cn.indices.reshape((3, g.num_cells), order="F").T.tolist()
@@ -405,6 +435,11 @@ class C33(Prop):
     def _close(a, b):
         return abs(F(a) - F(b)) <= F(1, 10 ** 9) * (1 + abs(F(b)))
 
+    @staticmethod
+    def _rel(a, b):
+        """a agrees with the measure b up to 1e-9 RELATIVE to b (no absolute tolerance)"""
+        return abs(F(a) - F(b)) <= F(1, 10 ** 9) * abs(F(b))
+
     def _valid_pair(self, case, res):
         """the inputs are two tessellations of one interval / polygon (exact check)"""
         if case["kind"] in ("lt", "m1"):
@@ -437,7 +472,7 @@ class C33(Prop):
             return "non-finite weight reported"
         if kind in ("lt", "m1"):
             iv1, iv2 = valid
-            nrm = F(case["dirnorm"])
+            nrm = F(case["dirnorm"]) * _scale(case)
             len1 = [(b - a) * nrm for a, b in iv1]
             len2 = [(b - a) * nrm for a, b in iv2]
             ent = res["ok"]
@@ -447,11 +482,11 @@ class C33(Prop):
                         return f"negative overlap {w} for cells ({i},{j})"
                 for i, l in enumerate(len1):
                     s = sum(F(w) for a, _, w in ent if a == i)
-                    if not self._close(s, l):
+                    if not self._rel(s, l):
                         return f"overlaps of cell {i} of the first tessellation sum to {float(s)}, length {float(l)}"
                 for j, l in enumerate(len2):
                     s = sum(F(w) for _, b, w in ent if b == j)
-                    if not self._close(s, l):
+                    if not self._rel(s, l):
                         return f"overlaps of cell {j} of the second tessellation sum to {float(s)}, length {float(l)}"
                 return None
             for i, j, w in ent:
@@ -471,17 +506,19 @@ class C33(Prop):
                             return f"integrated match_1d: column {j} sums to {float(s)}"
             return None
         a_new, a_old = valid
+        a_new = [a * _scale(case) ** 2 for a in a_new]
+        a_old = [a * _scale(case) ** 2 for a in a_old]
         ent = res["isect"]
         for i, j, w in ent:
             if w < 0:
                 return f"negative overlap area {w} for triangles ({i},{j})"
         for i, a in enumerate(a_new):
             s = sum(F(w) for r, _, w in ent if r == i)
-            if not self._close(s, a):
+            if not self._rel(s, a):
                 return f"overlap areas of new triangle {i} sum to {float(s)}, area {float(a)}"
         for j, a in enumerate(a_old):
             s = sum(F(w) for _, c, w in ent if c == j)
-            if not self._close(s, a):
+            if not self._rel(s, a):
                 return f"overlap areas of old triangle {j} sum to {float(s)}, area {float(a)}"
         for i in range(len(a_new)):
             s = sum(F(w) for r, _, w in res["avg"] if r == i)
